@@ -3,7 +3,8 @@
    from proofs/NumFnProofs.v and pinned with Print Assumptions.  model/NumFn.v transcribes
    numeric/{gcd,lcm,factorial,round,abs,sign,ceil,floor,trunc}.rs and binary/{bitand,bitor,xor,bitnot,shl,shr}.rs
    of /repo after the fixes 9b10c8448 (gcd, lcm), e09e186b9 (factorial), eb21ac26a (shr), 36f5e65a8
-   (DecimalToDecimal::bind); widths w are universally quantified (8..128 are instances).
+   (DecimalToDecimal::bind), 3e3b1e8ef / 2085adc17 / 2b7187fb9 (decimal comparisons); widths w are universally quantified
+   (8..128 are instances).
    The statements that were refuted before those fixes are proved at full strength; the definitions the source had
    before live on with the prefix old_ (model) with their witnesses (section 10) so that a regression is recognised.
    Naming: `_partial` = proved under the stated hypothesis, the full statement is in the comment and
@@ -164,15 +165,21 @@ Proof. exact spec_cmp_reflects. Qed.
 Print Assumptions C05num_cmp_spec_reflects.
 
 (* ---- 7b. comparisons with a decimal operand (decimal_bind: common (precision, scale), the side(s) whose type differs
-   are rescaled, the unscaled integers are compared) against the order of the rationals v1/10^s1, v2/10^s2 *)
+   are rescaled, the unscaled integers are compared; other operand types as the binder resolves them) against the
+   order of the rationals v1/10^s1, v2/10^s2.  P_current = the source after 3e3b1e8ef (digit counts in i16),
+   2085adc17 (UInt64 has 20 digits), 2b7187fb9 (Int64 / UInt64 / Decimal64 -> Decimal128 preferred over Float64) *)
+Theorem C05num_src_cmp_is_repaired : decbind_i8 = Some 0 /\ u64_dec_precision = Some 20 /\ wide_dec128 = Some 1.
+Proof. exact src_cmp_is_repaired. Qed.
+Print Assumptions C05num_src_cmp_is_repaired.
+
 (* the definition is the order of the rationals (cross-multiplication) *)
 Theorem C05num_dec_cmp_spec_is_rational_order : forall s1 v1 s2 v2, 0 <= s1 -> 0 <= s2 ->
   spec_dec_cmp s1 v1 s2 v2 = (v1 * 10 ^ s2 ?= v2 * 10 ^ s1).
 Proof. exact spec_dec_cmp_cross. Qed.
 Print Assumptions C05num_dec_cmp_spec_is_rational_order.
 
-(* never a wrong answer, for every pair of types and values, whichever side is rescaled, clamped or not, in every
-   variant P of the source (model/NumFn.v cparams) *)
+(* never a wrong answer, for every pair of types and values, whichever side is rescaled, clamped or not (in every
+   variant P of the source, in particular P_current) *)
 Theorem C05num_dec_cmp_sound : forall P m kd p1 s1 v1 p2 s2 v2 c,
   dec_cmp_core P m kd p1 s1 (Some v1) p2 s2 (Some v2) = Ok (Some c) -> c = spec_dec_cmp s1 v1 s2 v2.
 Proof. exact dec_cmp_sound. Qed.
@@ -183,53 +190,38 @@ Theorem C05num_dec_cmp_null : forall P m kd p1 s1 v1 p2 s2 v2 c,
 Proof. exact dec_cmp_null. Qed.
 Print Assumptions C05num_dec_cmp_null.
 
+(* never a panic, for every pair of types (any scale) and values *)
+Theorem C05num_dec_cmp_never_panics : forall P m kd p1 s1 v1 p2 s2 v2, bind_i8 P = false ->
+  dec_cmp_core P m kd p1 s1 v1 p2 s2 v2 <> Panic.
+Proof. exact dec_cmp_never_panics. Qed.
+Print Assumptions C05num_dec_cmp_never_panics.
+
 (* full statement (refuted: C05num_dec_cmp_refuted -- the common precision is clamped at MAX_PRECISION and the rescaled
-   value does not fit, or the i8 arithmetic of decimal_bind overflows):
-     forall P m kd p1 s1 v1 p2 s2 v2, 1 <= p1 <= maxprec kd -> 1 <= p2 <= maxprec kd -> -128 <= s1 <= p1 -> -128 <= s2 <= p2 ->
+   value does not fit: an error):
+     forall m kd p1 s1 v1 p2 s2 v2, 1 <= p1 <= maxprec kd -> 1 <= p2 <= maxprec kd -> s1 <= p1 -> s2 <= p2 ->
        Z.abs v1 < 10 ^ p1 -> Z.abs v2 < 10 ^ p2 ->
-       dec_cmp_core P m kd p1 s1 (Some v1) p2 s2 (Some v2) = Ok (Some (spec_dec_cmp s1 v1 s2 v2)) *)
-Theorem C05num_dec_cmp_correct_partial : forall P m kd p1 s1 v1 p2 s2 v2,
-  1 <= p1 <= maxprec kd -> 1 <= p2 <= maxprec kd -> -64 <= s1 <= p1 -> -64 <= s2 <= p2 ->
+       dec_cmp_core P_current m kd p1 s1 (Some v1) p2 s2 (Some v2) = Ok (Some (spec_dec_cmp s1 v1 s2 v2)) *)
+Theorem C05num_dec_cmp_correct_partial : forall m kd p1 s1 v1 p2 s2 v2,
+  1 <= p1 <= maxprec kd -> 1 <= p2 <= maxprec kd -> s1 <= p1 -> s2 <= p2 ->
   Z.max (p1 - s1) (p2 - s2) + Z.max s1 s2 <= maxprec kd ->
   Z.abs v1 < 10 ^ p1 -> Z.abs v2 < 10 ^ p2 ->
-  dec_cmp_core P m kd p1 s1 (Some v1) p2 s2 (Some v2) = Ok (Some (spec_dec_cmp s1 v1 s2 v2)).
-Proof. exact dec_cmp_correct_partial. Qed.
+  dec_cmp_core P_current m kd p1 s1 (Some v1) p2 s2 (Some v2) = Ok (Some (spec_dec_cmp s1 v1 s2 v2)).
+Proof. exact dec_cmp_current_correct_partial. Qed.
 Print Assumptions C05num_dec_cmp_correct_partial.
 
 Theorem C05num_dec_cmp_refuted :
-  dec_cmp_core P_found Debug D64 18 0 (Some 1) 18 18 (Some (5 * 10 ^ 17)) = Err /\ spec_dec_cmp 0 1 18 (5 * 10 ^ 17) = Gt /\
-  dec_cmp_core P_found Debug D128 38 0 (Some 1) 38 38 (Some (5 * 10 ^ 37)) = Err /\
-  dec_cmp_core P_found Debug D128 38 (-100) None 5 2 (Some 50) = Panic /\ dec_cmp_core P_found Release D128 38 (-100) None 5 2 (Some 50) = Err /\
-  dec_cmp_core P_found Debug D128 18 0 (Some 1) 19 18 (Some (5 * 10 ^ 17)) = Ok (Some Gt).
-Proof. exact dec_cmp_refuted. Qed.
+  dec_cmp_core P_current Debug D64 18 0 (Some 1) 18 18 (Some (5 * 10 ^ 17)) = Err /\ spec_dec_cmp 0 1 18 (5 * 10 ^ 17) = Gt /\
+  dec_cmp_core P_current Debug D128 38 0 (Some 1) 38 38 (Some (5 * 10 ^ 37)) = Err /\
+  dec_cmp_core P_current Debug D128 18 0 (Some 1) 19 18 (Some (5 * 10 ^ 17)) = Ok (Some Gt) /\
+  dec_cmp_core P_current Debug D128 38 (-100) None 5 2 (Some 50) = Err.
+Proof. exact dec_cmp_current_refuted. Qed.
 Print Assumptions C05num_dec_cmp_refuted.
 
-(* decimal ~ decimal of either width, decimal ~ integer whenever the binder stays in decimals: exact *)
-Theorem C05num_cmp_mixed_sound : forall P m l r c, exact_path P l r = true ->
-  impl_cmp_mixed P m l r = Ok (Some c) -> spec_cmp_mixed l r = Ok (Some c).
-Proof. exact cmp_mixed_sound. Qed.
+(* a decimal against a decimal of either width or an integer of any width, either operand order: exact *)
+Theorem C05num_cmp_mixed_sound : forall m l r c, no_float l r = true ->
+  impl_cmp_mixed P_current m l r = Ok (Some c) -> spec_cmp_mixed l r = Ok (Some c).
+Proof. exact cmp_mixed_current_sound. Qed.
 Print Assumptions C05num_cmp_mixed_sound.
-
-(* with Int64 / UInt64 / Decimal64 -> Decimal128 preferred over Float64 (P_repaired) that is every comparison of a
-   decimal with a decimal or an integer *)
-Theorem C05num_exact_path_repaired : forall l r, exact_path P_repaired l r =
-  match l, r with OpDec _ _ _ _, OpDec _ _ _ _ | OpDec _ _ _ _, OpInt _ _ _ | OpInt _ _ _, OpDec _ _ _ _ => true | _, _ => false end.
-Proof. exact exact_path_repaired. Qed.
-Print Assumptions C05num_exact_path_repaired.
-
-Theorem C05num_cmp_mixed_refuted :
-  impl_cmp_mixed P_found Debug (OpInt Signed 64 (Some 9007199254740993)) (OpDec D64 18 0 (Some 9007199254740992)) = Ok (Some Eq) /\
-  spec_cmp_mixed (OpInt Signed 64 (Some 9007199254740993)) (OpDec D64 18 0 (Some 9007199254740992)) = Ok (Some Gt) /\
-  impl_cmp_mixed P_found Debug (OpDec D128 20 2 (Some 150)) (OpInt Unsigned 64 (Some 18446744073709551615)) = Err /\
-  spec_cmp_mixed (OpDec D128 20 2 (Some 150)) (OpInt Unsigned 64 (Some 18446744073709551615)) = Ok (Some Lt) /\
-  impl_cmp_mixed P_found Debug (OpInt Unsigned 64 (Some 5)) (OpDec D64 10 2 (Some 500)) = Err /\
-  (* the same operands with the repaired variants *)
-  impl_cmp_mixed P_repaired Debug (OpInt Signed 64 (Some 9007199254740993)) (OpDec D64 18 0 (Some 9007199254740992)) = Ok (Some Gt) /\
-  impl_cmp_mixed P_repaired Debug (OpDec D128 20 2 (Some 150)) (OpInt Unsigned 64 (Some 18446744073709551615)) = Ok (Some Lt) /\
-  impl_cmp_mixed P_repaired Debug (OpInt Unsigned 64 (Some 5)) (OpDec D64 10 2 (Some 500)) = Ok (Some Eq) /\
-  dec_cmp_core P_repaired Debug D128 38 (-100) None 5 2 (Some 50) = Err.
-Proof. exact cmp_mixed_refuted. Qed.
-Print Assumptions C05num_cmp_mixed_refuted.
 
 (* the six operators and IS [NOT] DISTINCT FROM read off the three-way result *)
 Theorem C05num_cmp_results : forall c,
@@ -263,6 +255,21 @@ Theorem C05num_src_cmp_params_known : exists b u w,
   decbind_i8 = Some b /\ u64_dec_precision = Some u /\ wide_dec128 = Some w /\ In b [0; 1] /\ In u [19; 20] /\ In w [0; 1].
 Proof. exact src_cmp_params_known. Qed.
 Print Assumptions C05num_src_cmp_params_known.
+
+(* the general statements hold for every variant P, under the variant's own hypotheses *)
+Theorem C05num_dec_cmp_correct_partial_any_variant : forall P m kd p1 s1 v1 p2 s2 v2,
+  1 <= p1 <= maxprec kd -> 1 <= p2 <= maxprec kd -> s1 <= p1 -> s2 <= p2 ->
+  (bind_i8 P = true -> -64 <= s1 /\ -64 <= s2) ->
+  Z.max (p1 - s1) (p2 - s2) + Z.max s1 s2 <= maxprec kd ->
+  Z.abs v1 < 10 ^ p1 -> Z.abs v2 < 10 ^ p2 ->
+  dec_cmp_core P m kd p1 s1 (Some v1) p2 s2 (Some v2) = Ok (Some (spec_dec_cmp s1 v1 s2 v2)).
+Proof. exact dec_cmp_correct_partial. Qed.
+Print Assumptions C05num_dec_cmp_correct_partial_any_variant.
+
+Theorem C05num_cmp_mixed_sound_any_variant : forall P m l r c, exact_path P l r = true ->
+  impl_cmp_mixed P m l r = Ok (Some c) -> spec_cmp_mixed l r = Ok (Some c).
+Proof. exact cmp_mixed_sound. Qed.
+Print Assumptions C05num_cmp_mixed_sound_any_variant.
 
 (* ---- 10. regression witnesses: what the definitions the source had before those fixes (prefix old_) did *)
 Theorem C05num_old_gcd_min_panics_debug : forall w b, 0 < w ->
@@ -319,3 +326,27 @@ Theorem C05num_old_round_refuted :
 Proof. exact old_round_refuted. Qed.
 Print Assumptions C05num_old_round_refuted.
 
+
+(* decimal comparisons before 3e3b1e8ef / 2085adc17 / 2b7187fb9 (P_old): bigint ~ decimal(<=18) through Float64,
+   ubigint ~ decimal failing, precision - scale in i8 *)
+Theorem C05num_old_dec_cmp_refuted :
+  dec_cmp_core P_old Debug D64 18 0 (Some 1) 18 18 (Some (5 * 10 ^ 17)) = Err /\ spec_dec_cmp 0 1 18 (5 * 10 ^ 17) = Gt /\
+  dec_cmp_core P_old Debug D128 38 0 (Some 1) 38 38 (Some (5 * 10 ^ 37)) = Err /\
+  dec_cmp_core P_old Debug D128 38 (-100) None 5 2 (Some 50) = Panic /\ dec_cmp_core P_old Release D128 38 (-100) None 5 2 (Some 50) = Err /\
+  dec_cmp_core P_old Debug D128 18 0 (Some 1) 19 18 (Some (5 * 10 ^ 17)) = Ok (Some Gt).
+Proof. exact dec_cmp_refuted. Qed.
+Print Assumptions C05num_old_dec_cmp_refuted.
+
+Theorem C05num_old_cmp_mixed_refuted :
+  impl_cmp_mixed P_old Debug (OpInt Signed 64 (Some 9007199254740993)) (OpDec D64 18 0 (Some 9007199254740992)) = Ok (Some Eq) /\
+  spec_cmp_mixed (OpInt Signed 64 (Some 9007199254740993)) (OpDec D64 18 0 (Some 9007199254740992)) = Ok (Some Gt) /\
+  impl_cmp_mixed P_old Debug (OpDec D128 20 2 (Some 150)) (OpInt Unsigned 64 (Some 18446744073709551615)) = Err /\
+  spec_cmp_mixed (OpDec D128 20 2 (Some 150)) (OpInt Unsigned 64 (Some 18446744073709551615)) = Ok (Some Lt) /\
+  impl_cmp_mixed P_old Debug (OpInt Unsigned 64 (Some 5)) (OpDec D64 10 2 (Some 500)) = Err /\
+  (* the same operands with the current source *)
+  impl_cmp_mixed P_current Debug (OpInt Signed 64 (Some 9007199254740993)) (OpDec D64 18 0 (Some 9007199254740992)) = Ok (Some Gt) /\
+  impl_cmp_mixed P_current Debug (OpDec D128 20 2 (Some 150)) (OpInt Unsigned 64 (Some 18446744073709551615)) = Ok (Some Lt) /\
+  impl_cmp_mixed P_current Debug (OpInt Unsigned 64 (Some 5)) (OpDec D64 10 2 (Some 500)) = Ok (Some Eq) /\
+  dec_cmp_core P_current Debug D128 38 (-100) None 5 2 (Some 50) = Err.
+Proof. exact cmp_mixed_refuted. Qed.
+Print Assumptions C05num_old_cmp_mixed_refuted.
